@@ -29,10 +29,14 @@ type verifSym struct {
 // default; jobs that need the wider domain set it to 5 (adds Float, Symbol).
 var verifKindHi = 3
 
+// verifNoWiden: jobs whose skeleton family is already large keep the 4-kind domain in the
+// thorough tier.
+var verifNoWiden = false
+
 // verifInstallSym installs only the named Sym methods (every installed symbolic value is
 // rendered by appendSignature at the end of the run, so unused ones would only fork paths).
 func verifInstallSym(names ...string) *verifSym {
-	if verifapi.Thorough() && verifKindHi == 3 {
+	if verifapi.Thorough() && verifKindHi == 3 && !verifNoWiden {
 		verifKindHi = 5 // thorough tier: leaf kinds also range over Float and Symbol
 	}
 	s := &verifSym{}
@@ -259,9 +263,12 @@ func VerifNarrowChain(n int) {
 	mode := verifapi.Concrete(verifapi.Int("mode", 0, 1))
 	hiForm := 3 // nil?, !nil?, is_a?(Integer), !is_a?(Integer)
 	verifKindHi = 2
-	if n >= 2 { // thorough: all six forms, kinds incl. Bool
+	verifNoWiden = true
+	if n >= 2 { // thorough: all six forms; kinds incl. Bool when both tests are on the same variable
 		hiForm = 5
-		verifKindHi = 3
+		if mode == 0 {
+			verifKindHi = 3
+		}
 	}
 	f1 := verifapi.Concrete(verifapi.Int("f1", 0, hiForm))
 	f2 := verifapi.Concrete(verifapi.Int("f2", 0, hiForm))
@@ -1786,4 +1793,66 @@ func VerifConfigOrder(n int) {
 	verifapi.Reach("ran")
 	verifapi.Classify("C19/output-depends-on-config-file-layout/" + name)
 	verifapi.Assert(outRef == outOther, "C19-same-output")
+}
+
+// ---- C07 / C08 at program level: calls of real configured methods ----
+
+type verifCallSkel struct {
+	name string
+	src  string // uses Sym.a (argument or receiver) / Sym.u (union receiver); the call is on row 2 or 3
+	row  int
+	// ok: for a leaf of kind k the call certainly fits (true) or certainly fails (false)
+	ok func(k int) bool
+}
+
+var verifCallSkels = []verifCallSkel{
+	{"integer-plus-argument", "x = Sym.a\nr = 1 + x\n", 2, func(k int) bool { return k == base.VkInt || k == base.VkFloat }},
+	{"string-plus-argument", "x = Sym.a\nr = \"s\" + x\n", 2, func(k int) bool { return k == base.VkString }},
+	{"receiver-plus-integer", "x = Sym.a\nr = x + 1\n", 2, func(k int) bool { return k == base.VkInt || k == base.VkFloat }},
+	{"array-push-untyped-parameter", "x = Sym.a\na = [1]\na.push(x)\n", 3, func(k int) bool { return true }},
+	{"array-first-default-int", "x = Sym.a\nr = [1, 2].first(x)\n", 2, func(k int) bool { return k == base.VkInt }},
+	{"string-times-integer", "x = Sym.a\nr = \"s\" * x\n", 2, func(k int) bool { return k == base.VkInt }},
+	{"array-join-default-string", "x = Sym.a\nr = [1].join(x)\n", 2, func(k int) bool { return k == base.VkString }},
+	{"integer-to_s-default-int", "x = Sym.a\nr = 5.to_s(x)\n", 2, func(k int) bool { return k == base.VkInt }},
+	{"receiver-upcase", "x = Sym.a\nr = x.upcase\n", 2, func(k int) bool { return k == base.VkString }},
+	{"too-many-arguments", "x = Sym.a\nr = \"s\".to_sym(x)\n", 2, func(k int) bool { return false }},
+	{"too-few-arguments", "x = Sym.a\nr = [x].at\n", 2, func(k int) bool { return false }},
+}
+
+// VerifBuiltinCalls: a call of a real configured method with a receiver or argument of
+// solver-chosen kind; the diagnostic for the call's row must be present when the call
+// certainly fails (C07) and absent when it certainly fits (C08). With unionMode the leaf is
+// the union Sym.u: certainly fails iff both kinds fail, certainly fits iff both fit.
+func VerifBuiltinCalls(n int) {
+	sk := verifCallSkels[verifapi.Concrete(verifapi.Int("skeleton", 0, len(verifCallSkels)-1))]
+	unionMode := verifapi.Concrete(verifapi.Int("union", 0, 1))
+	src := sk.src
+	var fits, fails bool
+	if unionMode == 0 {
+		s := verifInstallSym("a")
+		verifapi.WitnessList("Sym.a", verifKN(s.ka))
+		fits, fails = sk.ok(s.ka), !sk.ok(s.ka)
+	} else {
+		s := verifInstallSym("u")
+		verifapi.WitnessList("Sym.u", verifKN(s.u1), verifKN(s.u2))
+		src = strings.Replace(src, "Sym.a", "Sym.u", 1)
+		fits, fails = sk.ok(s.u1) && sk.ok(s.u2), !sk.ok(s.u1) && !sk.ok(s.u2)
+	}
+	verifapi.Witness("src", src)
+	out := verifRun(src)
+	verifapi.Reach("ran")
+	leaf := []string{"scalar-leaf", "union-leaf"}[unionMode]
+	row := verifItoa(sk.row)
+	if fails {
+		verifapi.Witness("C07-call.row", row)
+		verifapi.Witness("C07-call.demand", "diagnostic")
+		verifapi.Classify("C07/certainly-failing-builtin-call-not-reported/" + sk.name + "/" + leaf)
+		verifapi.Assert(verifLine(out, sk.row) != "", "C07-call")
+	}
+	if fits {
+		verifapi.Witness("C08-call.row", row)
+		verifapi.Witness("C08-call.demand", "none")
+		verifapi.Classify("C08/certainly-fitting-builtin-call-reported/" + sk.name + "/" + leaf)
+		verifapi.Assert(verifLine(out, sk.row) == "", "C08-call")
+	}
 }
